@@ -40,7 +40,7 @@ def emit(I, root, width):
     return bytes(out.b)
 
 
-def rule_emit(progs, tier, name="YAMLEMIT", n_quick=40, n_thorough=600):
+def rule_emit(progs, tier, name="YAMLEMIT", n_quick=40, n_thorough=200):
     out = []
     for cfg, P in progs.items():
         res = RuleResult(name, cfg)
